@@ -65,7 +65,15 @@ def rule_int_digits_untrimmed(ctx, crate, rule="R-COUNT-EXACT"):
                 continue
             n += 1
             sl = b.slice_args(c, [0])
-            lossy = sorted({x.path for x in sl.calls if x.matches(*LOSSY_STR)})
+            # (taking the sign off - `strip_prefix('-')` - removes no digit: the sign is written separately, see `sign-not-grouped`)
+            def sign_only(x):
+                return K.meth(x.path) in ("strip_prefix", "trim_start_matches") and len(x.args) > 1 and x.args[1].get("k") == "const" and x.args[1].get("v") in ("-", "+")
+            lossy = sorted({x.path for x in sl.calls if x.matches(*LOSSY_STR) and not sign_only(x)})
+            if "HumanFloatCount" in b.name:
+                signed = any(sign_only(x) for x in sl.calls)
+                ctx.check(signed, rule, "sign-not-grouped:HumanFloatCount", b.name, c.loc(),
+                          "the sign of a negative value is taken off before the digits are grouped",
+                          "a leading '-' is counted as a digit by the grouping loop: HumanFloatCount(-123.0) prints \"-,123\" (a comma after the sign whenever the number of integer digits is a multiple of 3)", cfg)
             ctx.check(not lossy, rule, "integer-digits-untrimmed:%s" % b.name.split("::")[1].split(" ")[0], b.name, c.loc(),
                       "the grouped integer digits are the formatted digits, with nothing removed",
                       "the integer digits pass through %s before grouping: significant digits (e.g. trailing zeros of 1200) can be removed" % lossy, cfg)
